@@ -22,7 +22,8 @@ RULE = ("one world per seed: scenario = (engine, process family/model/grid/sampl
         "non-trivial = the run completed AND at least one of: >1 worker with >=2 tasks, a second seeding event, "
         ">=1 pre-drawn batch, a repeat comparison; distinct = distinct hash of (engine, process kind, mode, seed class, "
         "nproc, chunk->worker vector, seeding-event pattern, level/pass trajectory)")
-REAL = ["rpylib.montecarlo.standard.engine", "rpylib.montecarlo.multilevel.engine", "rpylib.montecarlo.configuration",
+REAL = ["rpylib.process.markovchain.{markovchainlevycopula,markovchainsde}, rpylib.process.coupling.{couplinglevycopula,couplingsde}",
+        "rpylib.montecarlo.standard.engine", "rpylib.montecarlo.multilevel.engine", "rpylib.montecarlo.configuration",
         "rpylib.process.levyprocess", "rpylib.process.markovchain.markovchain",
         "rpylib.process.coupling.couplingmarkovchain", "rpylib.distribution.* samplers", "rpylib.montecarlo.statistic",
         "rpylib.product.*", "multiprocess.reduction.ForkingPickler (dill) for every task"]
@@ -53,10 +54,20 @@ def generate(seed, tier="quick"):
     r = sub_rng(seed, "c08.scenario")
     engine = r.choice(["standard"] * 4 + ["mlmc_fixed"] * 2 + ["mlmc_adaptive"] * 2)
     if engine == "standard":
-        kind = r.choice(["levy", "chain", "chain"])
+        kind = r.choice(["levy", "chain", "chain", "chain", "copula", "sde"])
     else:
-        kind = "coupling"
-    if kind == "levy":
+        kind = r.choice(["coupling", "coupling", "coupling", "copula_coupling", "sde_coupling"])
+    if kind in ("copula", "copula_coupling"):
+        from . import c02nd
+
+        proc = c02nd.generate_process(r)
+        proc["margins"] = proc["margins"][:2]
+        proc["grid"] = {"kind": "fixed", "h": proc["grid"]["h"], "n": 4}
+        proc["kind"] = kind
+    elif kind in ("sde", "sde_coupling"):
+        proc = {"kind": kind, "driver": r.choice(["hem", "cgmy02", "vg"]), "coef": r.choice(["const", "diag"]),
+                "h": r.choice([0.1, 0.2]), "model": "sde"}
+    elif kind == "levy":
         model = r.choice(B.DIRECT_MODELS)
         proc = {"kind": "levy", "model": model}
     else:
@@ -70,8 +81,11 @@ def generate(seed, tier="quick"):
         else:
             grid = {"kind": "geometric", "h": r.choice([0.05, 0.1]), "n": r.choice([3, 5, 8])}
         proc = {"kind": kind, "model": model, "grid": grid, "method": r.choice(methods)}
-    stochastic = r.random() < 0.3
-    if stochastic:
+    stochastic = r.random() < 0.3 and kind not in ("sde", "sde_coupling")
+    if kind in ("copula", "copula_coupling", "sde", "sde_coupling"):
+        product = {"kind": "ntd" if (stochastic and kind.startswith("copula")) else "sum", "maturity": r.choice([0.25, 0.5, 1.0]),
+                   "dates": 2}
+    elif stochastic:
         product = {"kind": "cds", "maturity": r.choice([0.5, 1.0, 2.0]), "default_level": r.choice([-0.06, -0.1])}
     else:
         product = {"kind": r.choice(["call", "put", "forward"]), "maturity": r.choice([0.25, 0.5, 1.0]),
@@ -169,6 +183,11 @@ def shrink_candidates(sc):
         yield mod(nproc=2)
     elif sc["nproc"] == 2:
         yield mod(nproc=1)
+    if sc["process"]["kind"] in ("copula", "copula_coupling", "sde", "sde_coupling"):
+        br = sc["between_runs"]
+        if br["unrelated_draws"] or br["sleep"] or br["new_session"]:
+            yield mod(between_runs={"unrelated_draws": 0, "sleep": 0.0, "new_session": False})
+        return
     if sc["product"].get("dates", 2) > 2:
         c = mod()
         c["product"]["dates"] = 2
@@ -197,9 +216,62 @@ def shrink_candidates(sc):
 
 
 # ------------------------------------------------------------------------------------------------
+def _build_special(spec, pspec):
+    """copula chains / couplings and SDE processes (public constructors only)"""
+    from rpylib.distribution.sampling import SamplingMethod
+    from rpylib.grid.spatial import CTMCUniformGrid
+    from rpylib.product.payoff import PayoffOnTheFly, CDS
+    from rpylib.product.product import Product
+    from rpylib.product.underlying import Spot, NthDefaultTimes
+
+    T = pspec["maturity"]
+    kind = spec["kind"]
+    if kind in ("copula", "copula_coupling"):
+        from . import c02nd
+        from .c03 import _pristine_copula_model
+        from rpylib.process.coupling.couplinglevycopula import CouplingProcessLevyCopula
+        from rpylib.process.markovchain.markovchainlevycopula import MarkovChainLevyCopula
+
+        lcm = _pristine_copula_model(spec)
+        grid = CTMCUniformGrid.create_from_fixed_nb_of_points(h=spec["grid"]["h"], nb_of_points=spec["grid"]["n"], dimension=2)
+        method = SamplingMethod[c02nd.ND_METHODS[spec["method"]]]
+        process = (CouplingProcessLevyCopula(lcm, grid, method) if kind == "copula_coupling" else MarkovChainLevyCopula(lcm, grid, method))
+        if pspec["kind"] == "ntd":
+            product = Product(payoff_underlying=NthDefaultTimes(default_levels=[-0.1, -0.1], index=1),
+                              payoff=CDS(recovery_rate=0.4, spread=0.01, maturity=T, discounting=lcm.df), maturity=T)
+        else:
+            product = Product(payoff_underlying=Spot(), payoff=PayoffOnTheFly(_sum_payoff), maturity=T)
+        return process, product
+    from rpylib.model.levydrivensde.levydrivensde import LevyDrivenSDEModel, Constant, DiagX
+    from rpylib.model.levymodel.levymodel import ModelType
+    from rpylib.model.utils import create_levy_model
+    from rpylib.process.coupling.couplingsde import CouplingSDE
+    from rpylib.process.markovchain.markovchainsde import MarkovChainSDE
+
+    mt, kw = {"hem": ("HEM", {}), "vg": ("VG", {}), "cgmy02": ("CGMY", dict(c=0.7, g=15.0, m=20.0, y=0.2))}[spec["driver"]]
+    driver = create_levy_model(ModelType[mt])(**kw)
+    model = LevyDrivenSDEModel(driver=driver, x0=1.0, a=Constant(1, 1, 0.5) if spec["coef"] == "const" else DiagX(1))
+    grid = CTMCUniformGrid(h=spec["h"], model=model.driver)
+    method = SamplingMethod.BINARYSEARCHTREEADAPTED1D
+    process = CouplingSDE(model=model, grid=grid, method=method) if kind == "sde_coupling" else MarkovChainSDE(model, method, grid)
+    product = Product(payoff_underlying=Spot(), payoff=PayoffOnTheFly(_first_payoff), maturity=T)
+    return process, product
+
+
+def _sum_payoff(u):
+    return float(np.sum(u))
+
+
+def _first_payoff(u):
+    return float(np.ravel(u)[0])
+
+
 def _build(sc):
-    process = B.build_process(sc["process"])
-    product = B.build_product(sc["product"], process.model)
+    if sc["process"]["kind"] in ("copula", "copula_coupling", "sde", "sde_coupling"):
+        process, product = _build_special(sc["process"], sc["product"])
+    else:
+        process = B.build_process(sc["process"])
+        product = B.build_product(sc["product"], process.model)
     if sc["engine"] == "standard":
         from rpylib.montecarlo.configuration import ConfigurationStandard
         from rpylib.montecarlo.standard.engine import Engine
@@ -279,7 +351,7 @@ def _site(cons):
 def _oracles_for_run(wd, sc, mark, end):
     """U1 U2 U3 U4 D over the slices of the ledgers that belong to one run"""
     V = []
-    mode = "jump-times" if sc["product"]["kind"] == "cds" else "fixed-dates"
+    mode = "jump-times" if sc["product"]["kind"] in ("cds", "ntd") or sc["process"]["kind"].startswith("sde") else "fixed-dates"
     cls = f"engine={sc['engine']}|mode={mode}|procs={'1' if sc['nproc'] == 1 else 'pool'}"
     draws = wd.draws[mark["draws"]:end["draws"]]
     # ---- U1 / U2 -------------------------------------------------------------------------------
@@ -430,7 +502,7 @@ def execute(wd, sc):
             wd.probes["c08.repeat_compared"] += 1
             same, where = _same(obs1, obs2)
             if not same:
-                mode = "jump-times" if sc["product"]["kind"] == "cds" else "fixed-dates"
+                mode = "jump-times" if sc["product"]["kind"] in ("cds", "ntd") or sc["process"]["kind"].startswith("sde") else "fixed-dates"
                 seedcls = "seed=0" if sc["seed"] == 0 else "seed=int"
                 sig = f"C08.R|seeded single-process run not repeatable|engine={sc['engine']}|mode={mode}|{seedcls}"
                 V.append({"sig": sig, "oracle": "R",
